@@ -189,7 +189,8 @@ def f_Q(wavelength, two_theta):
 
 
 def f_wavelength_Q(Q, two_theta):
-    return 4 * np.pi * np.sin(two_theta / 2) / Q
+    with np.errstate(divide='ignore'):
+        return 4 * np.pi * np.sin(two_theta / 2) / Q
 
 
 def f_Qxyz(wavelength, incident_beam, scattered_beam):
